@@ -11,6 +11,8 @@ echo "== demo with change"; (cd "$S" && /venv/bin/python "$D/demo.py" "$S" 2>&1 
 cd /verif
 for P in "$@"; do
   echo "== check $P against the changed copy"
-  VERIF_REPO="$S" VERIF_EVIDENCE_DIR="$S/.evidence" bin/check "$P" --tier "${TIER:-quick}" | grep -E '^(VIOLATION|SUMMARY|CHECKER|KNOWN|UNDECIDED)' | cut -c1-260 | head -12
+  VERIF_REPO="$S" VERIF_EVIDENCE_DIR="$S/.evidence" bin/check "$P" --tier "${TIER:-quick}" > "$S/.check.out" 2>&1
+  grep -E '^UNDECIDED' "$S/.check.out" | cut -c1-260 | head -4
+  grep -E '^(VIOLATION|SUMMARY|CHECKER|KNOWN)' "$S/.check.out" | cut -c1-260 | head -12
 done
 rm -rf "$S"
